@@ -154,7 +154,7 @@ impl Prop for C13 {
         "C13"
     }
     fn cases(&self, tier: Tier) -> u64 {
-        tier.pick(100_000, 400_000)
+        tier.pick(100_000, 4_000_000)
     }
     fn strategy(&self, _tier: Tier) -> BoxedStrategy<Case> {
         let year = prop_oneof![
